@@ -8,7 +8,11 @@ Signer side: every produced signature must verify with the reference verifier, b
 with the requested hash-type byte, have s <= n//2, be identical when produced twice (with every entropy
 source of the library scripted differently) and never share r with another (key, digest) pair.  With an
 explicit nonce k (argument or scripted SystemRandom) r, s must be exactly the textbook values, which
-lets the digest be *solved* so that the raw s hits chosen targets around n//2 and 2^255.
+lets the digest be *solved* so that the raw s hits chosen targets around n//2 and 2^255.  The signer's
+optional parameters (use_rfc6979, k, hash_type) are also walked as a full product through keyword and
+positional calls of sign() and Signature.create() (sub sign_opts) and as call sequences on one key object
+(sub sign_hist): which nonce a call uses is decided by ITS arguments alone - explicit k, else SystemRandom
+when use_rfc6979 is false, else the one deterministic nonce of (key, digest).
 
 Verifier side: triples are built with the reference signer (never with the library) and pushed through
 every verify entry point; the library verdict (a raise counts as reject) must equal textbook ECDSA.
@@ -24,7 +28,10 @@ LEVEL = 'exploration'
 RULE = ('full products of explicitly listed alphabets: private scalars x 32-byte digests (edge values, values '
         'around n, leading-zero values, one VERIF_SEED-positioned window each) x input spellings; all 256 '
         'hash-type bytes; explicit nonces; every integer s-target in windows around 1, n//2, 2^255, n-1 (digest '
-        'solved from s, k, d); for the verifier (r,s) alphabets squared, high-S twins, 35 named DER '
+        'solved from s, k, d); the full product entry (sign / Signature.create, keyword / positional) x use_rfc6979 '
+        '(omitted, True, False, 1, 0) x k (omitted, None, explicit values) x hash_type x key spelling x digest '
+        'spelling with SystemRandom scripted per call, and every sequence of <= 2 (thorough 3) such calls over a '
+        '16-event alphabet on one key object; for the verifier (r,s) alphabets squared, high-S twins, 35 named DER '
         're-encodings, wrong / malformed public keys, every single-bit digest flip and z+-n twins, through all '
         'entry points (Signature(r,s).verify, verify(), Signature.parse/parse_bytes/parse_hex with raw r||s '
         'and DER||hashtype in bytes and hex). An evaluation is non-trivial when the library produced a '
@@ -45,6 +52,12 @@ ASSUMPTIONS = [
     'public keys are passed as Key/HDKey objects or SEC1 bytes; hex-string public keys (which Signature.public_key '
     'cannot take: AttributeError) and digests that are not 32 bytes are outside the enumerated space',
     'explicit nonces are in [1, n-1]; hash types are one byte',
+    'nonce selection as documented by sign / Signature.create: an explicit k is the nonce whatever use_rfc6979 is; '
+    'without k (omitted or None) a false use_rfc6979 (False, 0) means exactly one SystemRandom().randint draw, a true '
+    'or omitted one the deterministic nonce; k=0 (an invalid nonce that the library reads as "not given") and '
+    'use_rfc6979=None are not enumerated; Signature.k is recorded in the detail, not judged',
+    'only the fastecdsa code path exists in this environment (the python-ecdsa fallback of USE_FASTECDSA=False '
+    'cannot be imported here, the package is not installed), so that environment answer is not enumerated',
 ]
 
 N = secp.N
@@ -533,6 +546,287 @@ def sub_nonce_pair(case):
     return D.result()
 
 
+# ------------------------------------------------------- signer: option product and signer call histories
+# The signer has three optional parameters that together select the nonce: use_rfc6979, k and (irrelevant for
+# the nonce, relevant for the encoding) hash_type.  The specification (docstrings of sign / Signature.create):
+#   an explicit k IS the nonce ("Provide own k"), whatever use_rfc6979 says;
+#   without k: use_rfc6979 true (or left out) -> deterministic nonce, use_rfc6979 false -> SystemRandom nonce.
+# sign_k / sign_rng / sign_ht walk each parameter alone; sign_opts walks their full product through every way of
+# passing them, sign_hist walks sequences of such calls on one key object.
+_OM = 'omitted'
+_RFC_SPELLINGS = (_OM, 'True', 'False', '1', '0')
+_RFC_VALUES = {'True': True, 'False': False, '1': 1, '0': 0}
+_OPT_ENTRIES = ('sign(kw)', 'sign(positional)', 'Signature.create(kw)', 'Signature.create(positional)')
+
+
+def _rfc_class(sp):
+    return 'default' if sp == _OM else ('truthy' if _RFC_VALUES[sp] else 'falsy')
+
+
+def _nonce_source(rfc_sp, k_sp):
+    """Which nonce the documentation promises for this combination of arguments."""
+    if k_sp not in (_OM, 'None'):
+        return 'explicit'
+    return 'random' if _rfc_class(rfc_sp) == 'falsy' else 'deterministic'
+
+
+def _opt_site(rfc_sp, k_sp):
+    return 'sign(use_rfc6979=%s,k=%s)' % (_rfc_class(rfc_sp), 'explicit' if k_sp not in (_OM, 'None') else 'none')
+
+
+def _opt_call(entry, zarg, key, rfc_sp, k_sp, ht_sp):
+    """One signer call with the options passed as keywords or positionally (trailing omitted ones left out,
+    inner omitted ones filled with the documented default)."""
+    from bitcoinlib.keys import sign, Signature
+    fn = sign if entry.startswith('sign(') else Signature.create
+    vals = [_OM if rfc_sp == _OM else _RFC_VALUES[rfc_sp],
+            _OM if k_sp == _OM else (None if k_sp == 'None' else int(k_sp, 16)),
+            _OM if ht_sp == _OM else int(ht_sp)]
+    given = [sp != _OM for sp in (rfc_sp, k_sp, ht_sp)]
+    if entry.endswith('(kw)'):
+        kw = dict((name, v) for name, v, g in zip(('use_rfc6979', 'k', 'hash_type'), vals, given) if g)
+        return fn(zarg, key, **kw)
+    while given and not given[-1]:
+        given.pop()
+    args = [vals[i] if given[i] else (True, None, 1)[i] for i in range(len(given))]
+    return fn(zarg, key, *args)
+
+
+class _NonceOracle(object):
+    """Reference answers for one private key: the textbook signature per (digest, nonce), and which of the nonces
+    in play an observed r reveals."""
+
+    def __init__(self, d):
+        self.d = d
+        self.rk = {}
+        self.tb = {}
+        self.det = {}
+
+    def r_of(self, k):
+        if k not in self.rk:
+            self.rk[k] = secp.mul_g(k)[0] % N
+        return self.rk[k]
+
+    def textbook(self, zi, k):
+        """(r, low s, raw s) of the textbook signature with nonce k."""
+        key = (zi, k)
+        if key not in self.tb:
+            r = self.r_of(k)
+            s = pow(k, -1, N) * (zi + r * self.d) % N
+            self.tb[key] = (r, min(s, N - s), s)
+        return self.tb[key]
+
+    def det_candidates(self, zb):
+        """The RFC 6979 instantiations known to the reference: {(r, low s): label}."""
+        if zb not in self.det:
+            zi = int.from_bytes(zb, 'big')
+            out = {}
+            for lab, h1 in (('nonce=rfc6979(h1=sha256(asciihex(digest)))', hashlib.sha256(zb.hex().encode()).digest()),
+                            ('nonce=rfc6979(h1=digest)', zb)):
+                out.setdefault(self.textbook(zi, secp.rfc6979_k(self.d, h1))[:2], lab)
+            self.det[zb] = out
+        return self.det[zb]
+
+    def reveals(self, zb, r, known):
+        """Name of the first nonce in `known` ([(name, k), ...]) whose (kG).x is r."""
+        for name, k in known:
+            if k and r == self.r_of(k):
+                return name
+        for (cr, _), lab in self.det_candidates(zb).items():
+            if r == cr:
+                return 'deterministic'
+        return 'unknown'
+
+
+def _judge_signer_call(D, O, site, sg, calls, zb, source, nonce, ht, known, first_det, ctxd, tail=''):
+    """One produced signature against the promised nonce source.  `nonce` is the explicit k / the scripted
+    SystemRandom answer; `known` names every nonce that is around (for the classifier only); `first_det` is the
+    dict digest -> (r, s) of the first deterministic-mode signature seen for this key."""
+    zi = int.from_bytes(zb, 'big')
+    r, s = sg.r, sg.s
+    if not (isinstance(r, int) and isinstance(s, int)):
+        D.dev(site + '|r_s_not_int' + tail, ctxd)
+        return
+    exact = False
+    if source in ('explicit', 'random'):
+        er, es, raw_s = O.textbook(zi, nonce)
+        what = 'the_explicit_k' if source == 'explicit' else 'the_SystemRandom_answer'
+        if source == 'random' and calls != 1:
+            D.dev('%s|random_mode_draws_%s_nonces%s' % (site, 'no' if calls == 0 else 'several', tail),
+                  dict(ctxd, calls=calls))
+        if r != er:
+            D.dev('%s|nonce_is_not_%s|used=%s%s' % (site, what, O.reveals(zb, r, known), tail),
+                  dict(ctxd, r=hex(r), expected_r=hex(er), k_attribute=repr(getattr(sg, 'k', None))[:80]))
+        elif s != es:
+            if s == raw_s and s > HALF:
+                D.dev(site + '|' + _high_s_class(O.d, zi, r, s, nonce) + tail, dict(ctxd, r=hex(r), s=hex(s)))
+            else:
+                D.dev(site + '|s_mismatch' + tail, dict(ctxd, s=hex(s), expected=hex(es)))
+        else:
+            exact = True
+            D.label('%s_nonce_honoured' % source)
+    else:
+        lab = O.det_candidates(zb).get((r, s))
+        if lab:
+            exact = True
+            D.label(lab)
+        else:
+            used = O.reveals(zb, r, known)
+            if used not in ('unknown', 'deterministic'):
+                D.dev('%s|deterministic_mode_nonce_from=%s%s' % (site, used, tail), dict(ctxd, r=hex(r)))
+            else:
+                D.label('nonce=other_deterministic')
+        if zb not in first_det:
+            first_det[zb] = (r, s)
+        elif first_det[zb] != (r, s):
+            D.dev('%s|deterministic_mode_result_varies%s' % (site, tail),
+                  dict(ctxd, first=[hex(v) for v in first_det[zb]], got=[hex(r), hex(s)]))
+    if getattr(sg, 'hash_type', None) != ht:
+        D.dev(site + '|hash_type_attribute_wrong' + tail, dict(ctxd, got=repr(getattr(sg, 'hash_type', None))[:40]))
+    if exact:
+        # equality with the reference signer implies validity and low S: only the encoding is left
+        try:
+            body = sg.as_der_encoded(include_hash_type=False)
+            der = sg.as_der_encoded()
+        except Exception as e:
+            D.dev(site + '|encoding_raises|' + type(e).__name__ + tail, dict(ctxd, exc=repr(e)[:200]))
+            return
+        if body != secp.der_encode(r, s):
+            D.dev(site + '|der_encodes_other_values' + tail, dict(ctxd, der=body.hex()))
+        elif der != body + bytes([ht]):
+            D.dev(site + '|hash_type_byte_wrong' + tail, dict(ctxd, der=der.hex(), hash_type=ht))
+    else:
+        _check_sig_object(D, site, sg, O.d, zi, ht, None, ctxd)
+
+
+def sub_sign_opts(case):
+    """case = {'d','z','kform','entries','ks':[hex],'krs':[hex,hex],'hts':[...]}: the full product of
+    entry x use_rfc6979 spelling x k spelling x hash_type spelling x digest spelling for one key in one spelling.
+    SystemRandom is scripted with an answer that alternates between two values from call to call, so that a
+    deterministic or explicit-nonce signature that depends on it cannot stay unnoticed.  A key object is made
+    anew for every (entry, use_rfc6979, k) block and serves the hash_type x digest spellings of that block
+    (building a key costs more than signing; what a key object may carry over between calls is sign_hist's job)."""
+    from bitcoinlib.keys import sign
+    d = int(case['d'], 16)
+    zh = case['z']
+    zb = bytes.fromhex(zh)
+    krs = [int(x, 16) for x in case['krs']]
+    O = _NonceOracle(d)
+    D = _Devs()
+    first_det = {}
+    # the canonical plain call fixes what "the" deterministic signature of (key, digest) is, for every case alike
+    try:
+        with _entropy([krs[1], krs[0]]):
+            sg0 = sign(zb, _mkkey(d, 'key'))
+    except Exception as e:
+        D.dev('sign|raises|' + type(e).__name__, {'d': case['d'], 'digest': zh, 'exc': repr(e)[:200]})
+        return D.result()
+    D.n += 1
+    rs0 = _check_sig_object(D, 'sign', sg0, d, int(zh, 16), 1, None, {'d': case['d'], 'digest': zh})
+    if rs0 is None:
+        return D.result()
+    first_det[zb] = rs0
+    ck = _spec_key({'d': case['d'], 'z': zh, 'kform': case['kform']})
+    i = 0
+    for entry in case['entries']:
+        for rfc_sp in _RFC_SPELLINGS:
+            for k_sp in [_OM, 'None'] + case['ks']:
+                key = _mkkey(d, case['kform'])
+                source = _nonce_source(rfc_sp, k_sp)
+                site = _opt_site(rfc_sp, k_sp)
+                for ht_sp in [_OM] + [str(h) for h in case['hts']]:
+                    ht = 1 if ht_sp == _OM else int(ht_sp)
+                    for zform in ('bytes', 'hex'):
+                        i += 1
+                        kr = krs[i & 1]
+                        ctxd = {'d': case['d'], 'digest': zh, 'entry': entry, 'use_rfc6979': rfc_sp, 'k': k_sp,
+                                'hash_type': ht_sp, 'forms': [case['kform'], zform], 'SystemRandom_answer': '%x' % kr}
+                        D.n += 1
+                        try:
+                            with _entropy([kr]) as rng:
+                                sg = _opt_call(entry, zb if zform == 'bytes' else zh, key, rfc_sp, k_sp, ht_sp)
+                            calls = rng.calls
+                        except Exception as e:
+                            D.dev(site + '|raises|' + type(e).__name__, dict(ctxd, exc=repr(e)[:200]))
+                            continue
+                        if source == 'explicit':
+                            nonce = int(k_sp, 16)
+                            known = [('SystemRandom_answer', kr), ('explicit_k', nonce)]
+                        else:
+                            nonce = kr if source == 'random' else None
+                            known = [('SystemRandom_answer', kr)]
+                        known += [('SystemRandom_answer_of_another_call', krs[1 - (i & 1)])]
+                        known += [('other_explicit_k', int(x, 16)) for x in case['ks']]
+                        _judge_signer_call(D, O, site, sg, calls, zb, source, nonce, ht, known, first_det, ctxd)
+                        D.nt.append('%s|%s|%s|%s|%s|%s' % (ck, entry, rfc_sp, k_sp, ht_sp, zform))
+    return D.result()
+
+
+def _hist_events(nz, nk):
+    """The call alphabet of signer histories: (mode, digest index, nonce index)."""
+    ev = [['det', zi, 0] for zi in range(nz)] + [['rnd', zi, 0] for zi in range(nz)]
+    for mode in ('k', 'rnd+k', 'det+k'):
+        ev += [[mode, zi, ki] for zi in range(nz) for ki in range(nk)]
+    return ev
+
+
+_HIST_OPTS = {'det': (_OM, _OM), 'rnd': ('False', _OM), 'k': (_OM, 'K'), 'rnd+k': ('False', 'K'), 'det+k': ('True', 'K')}
+
+
+def sub_sign_hist(case):
+    """case = {'d','zs','ks','krs','kform','first','L'}: every sequence of <= L signer calls that starts with
+    event `first`, each sequence on ONE fresh key object.  Every call is judged for ITS arguments: an explicit
+    nonce is the nonce, use_rfc6979=False takes the SystemRandom answer scripted for that step, the default mode
+    gives the one deterministic signature of (key, digest) - whatever was signed before on the same key."""
+    import itertools
+    d = int(case['d'], 16)
+    zbs = [bytes.fromhex(z) for z in case['zs']]
+    ks = [int(x, 16) for x in case['ks']]
+    krs = [int(x, 16) for x in case['krs']]
+    events = _hist_events(len(zbs), len(ks))
+    O = _NonceOracle(d)
+    D = _Devs()
+    first_det = {}
+    ck = _spec_key({'d': case['d'], 'zs': case['zs'], 'ks': case['ks']})
+    for ln in range(1, case['L'] + 1):
+        for rest in itertools.product(range(len(events)), repeat=ln - 1):
+            hist = [case['first']] + list(rest)
+            key = _mkkey(d, case['kform'])
+            earlier = []
+            for step, ei in enumerate(hist):
+                mode, zi, ki = events[ei]
+                rfc_sp, k_sp = _HIST_OPTS[mode]
+                if k_sp == 'K':
+                    k_sp = '%x' % ks[ki]
+                source = _nonce_source(rfc_sp, k_sp)
+                site = 'sign_hist|' + _opt_site(rfc_sp, k_sp)
+                tail = '|step=%s' % ('first' if step == 0 else 'later')
+                kr = krs[step % len(krs)]
+                ctxd = {'d': case['d'], 'kform': case['kform'], 'history': [events[e] for e in hist], 'step': step,
+                        'digests': case['zs'], 'ks': case['ks'], 'SystemRandom_answers': case['krs']}
+                if step == len(hist) - 1:
+                    D.n += 1        # the prefix was evaluated as a history of its own
+                try:
+                    with _entropy([kr]) as rng:
+                        sg = _opt_call(_OPT_ENTRIES[step & 1], zbs[zi], key, rfc_sp, k_sp, _OM)
+                    calls = rng.calls
+                except Exception as e:
+                    D.dev(site + '|raises|' + type(e).__name__ + tail, dict(ctxd, exc=repr(e)[:200]))
+                    break
+                nonce = int(k_sp, 16) if source == 'explicit' else (kr if source == 'random' else None)
+                known = [('SystemRandom_answer', kr)] + ([('explicit_k', nonce)] if source == 'explicit' else [])
+                known += [('nonce_of_earlier_call', k) for k in earlier]
+                known += [('other_explicit_k', k) for k in ks]
+                if step == len(hist) - 1:
+                    _judge_signer_call(D, O, site, sg, calls, zbs[zi], source, nonce, 1, known, first_det, ctxd, tail)
+                if nonce:
+                    earlier.append(nonce)
+                elif isinstance(getattr(sg, 'k', None), int):
+                    earlier.append(sg.k)
+            D.nt.append('%s:%s:%s' % (ck, case['kform'], '.'.join(str(e) for e in hist)))
+    return D.result()
+
+
 # ----------------------------------------------------------------------------------------- verifier subs
 def _verdict(fn):
     try:
@@ -918,7 +1212,7 @@ def sub_reuse(case):
     return {'devs': devs, 'n': len(case['hist']), 'out': outs}
 
 
-SUBS = {'reuse': sub_reuse, 'sign': sub_sign, 'sign_ht': sub_sign_ht, 'sign_k': sub_sign_k, 'sign_rng': sub_sign_rng,
+SUBS = {'reuse': sub_reuse, 'sign_opts': sub_sign_opts, 'sign_hist': sub_sign_hist, 'sign': sub_sign, 'sign_ht': sub_sign_ht, 'sign_k': sub_sign_k, 'sign_rng': sub_sign_rng,
         'sign_starget': sub_sign_starget, 'nonce_pair': sub_nonce_pair, 'ver_rs': sub_ver_rs, 'ver_der': sub_ver_der,
         'ver_key': sub_ver_key, 'ver_dig': sub_ver_dig}
 
@@ -1001,6 +1295,23 @@ def run(ctx):
         ctx.pmap('sign_k', [{'d': _h(d), 'zs': kdig, 'k': _h(k)} for k in ks for d in kkeys], chunk=1)
     if want('sign_rng'):
         ctx.pmap('sign_rng', [{'d': _h(d), 'zs': kdig[:4], 'k': _h(k)} for k in ks for d in kkeys[:3]], chunk=1)
+    # ---- the signer's options together: entry x use_rfc6979 x k x hash_type x spellings; then call histories
+    okeys = _uniq([N - 1, keys[-1]] + ([] if q else [1, T255]))
+    odig = [_h(z) for z in _uniq([0, digests[-1]] + ([] if q else [T256 - 1, N]))]
+    oks = ['%x' % k for k in _uniq([1, KHALF, nbase] + ([] if q else [N - 1, T255, nbase + 1]))]
+    okrs = ['%x' % k for k in (T255 + 1, nbase + nw + 5)]
+    ohts = [0, 0x83] + ([] if q else [1, 2, 0xff])
+    if want('sign_opts'):
+        ctx.pmap('sign_opts', [{'d': _h(d), 'z': z, 'kform': kf, 'entries': [e], 'ks': oks, 'krs': okrs, 'hts': ohts}
+                               for d in okeys for z in odig for kf in ('key', 'hdkey', 'hex') for e in _OPT_ENTRIES],
+                 chunk=1)
+    HL = 2 if q else 3
+    hkeys = okeys[:2] if q else okeys[:4]
+    hev = _hist_events(2, 2)
+    if want('sign_hist'):
+        ctx.pmap('sign_hist', [{'d': _h(d), 'zs': [odig[-1], odig[0]], 'ks': oks[1:3], 'kform': kf, 'first': e, 'L': HL,
+                                'krs': ['%x' % (T255 + 1 + i) for i in range(HL)]}
+                               for d in hkeys for kf in ('key', 'hdkey') for e in range(len(hev))], chunk=1)
     # ---- constructed s targets: windows around every boundary of the low-S rule
     W = 512 if q else 8192
     sw = _seedint(seed, 'swin', N - 2 * W)
@@ -1073,4 +1384,8 @@ def run(ctx):
         'keys': len(keys), 'digests': len(digests), 'key_window': [hex(kbase), kw], 'digest_window': [hex(zbase), zw],
         'explicit_nonces': len(ks), 's_target_window_halfwidth': W, 's_target_windows':
             '[1,1+W) [n//2-W,n//2+W] [2^255-W,2^255+W] [n-W,n) + one seed window, for %d (d,k) pairs' % (5 if q else 8),
+        'signer_options': {'entries': list(_OPT_ENTRIES), 'use_rfc6979': list(_RFC_SPELLINGS), 'k': ['omitted', 'None'] + oks,
+                           'hash_type': ['omitted'] + ohts, 'digest_forms': 2, 'key_forms': 3, 'keys': len(okeys),
+                           'digests': len(odig), 'SystemRandom_answers': okrs},
+        'signer_histories': {'events': len(hev), 'max_length': HL, 'keys': len(hkeys), 'key_forms': 2},
         'verifier_bases': len(bases), 'der_variants': len(_der_variants(N - 1, N - 1)), 'hash_types': 256})
